@@ -58,6 +58,7 @@ class Share:
         self._dyhb_rtt = dyhb_rtt
         # self._alive becomes False upon fatal corruption or server error
         self._alive = True
+        self._abandoned_because = None
         self._loop_scheduled = False
         self._lp = log.msg(format="%(share)s created", share=repr(self),
                            level=log.NOISY, parent=logparent, umid="P7hv2w")
@@ -164,6 +165,12 @@ class Share:
         assert segnum >= 0
         o = EventStreamObserver()
         o.set_canceler(self, "_cancel_block_request")
+        if not self._alive:
+            # we were abandoned earlier (our server failed, or we are
+            # corrupt) and loop() will never run again: answer right away
+            # instead of leaving the caller to wait for a block for ever
+            o.notify(state=DEAD, f=self._abandoned_because)
+            return o
         for i,(segnum0,observers) in enumerate(self._requested_blocks):
             if segnum0 == segnum:
                 observers.add(o)
@@ -849,6 +856,7 @@ class Share:
                 share=repr(self), failure=f,
                 level=level, parent=self._lp, umid="JKM2Og")
         self._alive = False
+        self._abandoned_because = f
         for (segnum, observers) in self._requested_blocks:
             for o in observers:
                 o.notify(state=DEAD, f=f)
